@@ -1,7 +1,15 @@
-From DB Require Import Base.Bytes Model.CodecEntry Model.Frame.
+From DB Require Import Base.Bytes Model.CodecEntry Model.Frame Model.CodecProto Model.CodecUpdate.
 Require Extraction.
 Require Import ExtrOcamlBasic.
 Extraction Language OCaml.
 Extraction "../ocaml/c13/model.ml" util_add util_mul util_divmod
   encode decode size size_upper_limit wf_entryb
-  encode_header decode_header write_message write_header read_frame crc32.
+  encode_header decode_header write_message write_header read_frame crc32
+  state_encode state_size state_decode state_size_upper
+  session_encode session_size session_decode
+  cc_encode cc_size cc_decode sf_encode sf_size sf_decode sh_encode sh_size sh_decode
+  rds_encode rds_size rds_decode eb_encode eb_size eb_decode eb_size_upper
+  mb_encode mb_size mb_decode bs_encode bs_size bs_decode sn_encode sn_size sn_decode
+  msg_encode msg_size msg_decode msg_size_upper bt_encode bt_size bt_decode bt_size_upper
+  ck_encode ck_size_of ck_decode
+  update_encode update_decode update_size_upper.
